@@ -358,7 +358,19 @@ pub fn case_solve(ctx: &mut Ctx, case: &Value) {
         t.payoffs(&mut v);
         v.iter().fold(1.0f64, |a, b| a.max(b.abs()))
     };
+    // the mutexes of the multi-threaded solvers are observed in the runs of C05, C06 and C07
+    let watch_locks = (has("wellformed") || has("multi_eq_single")) && cfg.threads >= 2 && cfg.threads <= 16 && cfg.iters <= 12;
+    if watch_locks {
+        cfr::verif::sync::reset();
+        cfr::verif::sync::set_observe(true);
+    }
     let out = run_lib(&g, &cfg);
+    if watch_locks {
+        cfr::verif::sync::set_observe(false);
+        let lock_log = cfr::verif::sync::take_log();
+        let ran = if let Outcome::Ok(_) = &out { Some(cfg.iters) } else { None };
+        crate::locks::check_locks(ctx, case, &t, &cfg, &lock_log, ran);
+    }
     ctx.count(mix64(t.hash() ^ cfg.hash()), n_info >= 2 && cfg.iters >= 1);
     ctx.stat(&format!("method_{}", cfg.method));
     ctx.stat(&format!("threads_{}", if cfg.threads > 16 { "huge".to_string() } else { cfg.threads.to_string() }));
